@@ -34,10 +34,18 @@ impl Default for Housekeeper {
 
 impl Housekeeper {
     pub(crate) fn should_apply_reads(&self, ch_len: usize, now: Instant) -> bool {
+        #[cfg(mini_moka_verif)]
+        if let Some((flush, _, _)) = crate::verif::scaled_queues() {
+            return self.should_apply(ch_len, flush, now);
+        }
         self.should_apply(ch_len, READ_LOG_FLUSH_POINT, now)
     }
 
     pub(crate) fn should_apply_writes(&self, ch_len: usize, now: Instant) -> bool {
+        #[cfg(mini_moka_verif)]
+        if let Some((flush, _, _)) = crate::verif::scaled_queues() {
+            return self.should_apply(ch_len, flush, now);
+        }
         self.should_apply(ch_len, WRITE_LOG_FLUSH_POINT, now)
     }
 
